@@ -159,9 +159,12 @@ def tool_leaf(s):
     kind = s.pick(cfg.kinds)
     if name == "dd":
         modes = [0, 0, 1] + ([3] if cfg.faults else []) + ([2, 2] if "dd2" in cfg.tools else [])
-        return ["tool", "dd", s.pick(modes) + 4 * s.int(0, 1), kind]
+        k = s.pick(modes) + 4 * s.int(0, 1)
+        # (the batch kind is a function of the key, so that equal keys are equal calls)
+        return ["tool", "dd", k, cfg.kinds[k % len(cfg.kinds)], s.pick([0, 0, 1])]
     if name == "alru":
-        return ["tool", "alru", s.int(0, 2), kind]
+        k = s.int(0, 2)
+        return ["tool", "alru", k, cfg.kinds[k % len(cfg.kinds)]]
     if name == "agen":
         n = s.int(0, 3)
         cid0 = s.cid()
@@ -172,7 +175,7 @@ def tool_leaf(s):
         return ["tool", name, s.int(0, 3), s.int(0 if name in ("amap", "asorted", "afilter") else 1, 3), kind]
     if name == "retry":
         return ["tool", "retry", s.uid(), kind]
-    return ["tool", "cwc", s.int(0, 3), kind, s.cid()]
+    return ["tool", "cwc", s.pick([0, 1, 2, 3] if cfg.faults else [0, 1]), kind, s.cid()]
 
 
 def struct(s, depth, sdepth=0):
